@@ -93,8 +93,8 @@ pub fn world(seed: u64, size: usize) -> World {
     // parities, counted from the start of the URL and from the end of the host: whatever bounds, windows or chunks the text
     // handed to a compiled regex must cut at character boundaries, in every thread alike
     for (k, mark) in [(0usize, 16384usize), (1, 16384), (0, 65536), (1, 65536)] {
-        let head = format!("https://ads0.example/x/banner/r0/twin0/q/b.gif?d={}", if k == 1 { "b" } else { "" });
-        let fill = mark - 100 - head.len();
+        let head = "https://ads0.example/x/banner/r0/twin0/q/b.gif?d=".to_string();
+        let fill = mark - 100 - head.len() + k;
         let url = format!("{}{}{}&end=1", head, "a".repeat(fill), "\u{e9}".repeat(120));
         queries.push(Q::Net { url: url.clone(), src: "https://site0.example/".into(), ty: "script".into() });
         queries.push(Q::Net { url, src: "https://site0.example/".into(), ty: "image".into() });
@@ -182,7 +182,11 @@ pub fn sequential(w: &World) -> Vec<Vec<String>> {
     let mut e = build(w);
     let mut all = vec![];
     for round in &w.rounds {
-        apply_round(&mut e, round);
+        // (a query that panicked while holding the regex manager leaves the engine unusable: start over from a fresh one)
+        if std::panic::catch_unwind(std::panic::AssertUnwindSafe(|| apply_round(&mut e, round))).is_err() {
+            e = build(w);
+            let _ = std::panic::catch_unwind(std::panic::AssertUnwindSafe(|| apply_round(&mut e, round)));
+        }
         // twice, so that the second pass runs against a warm (and partly discarded) cache
         let guarded_answer = |q: &Q| -> String {
             match std::panic::catch_unwind(std::panic::AssertUnwindSafe(|| answer(&e, q))) {
@@ -248,6 +252,17 @@ pub fn run(seed: u64, n: usize, out: &mut Out, tier: &str) {
         let wseed = seed.wrapping_add(s as u64);
         let w = Arc::new(world(wseed, world_size(n)));
         let reference = sequential(&w);
+        let panicked: Vec<(usize, usize)> = reference.iter().enumerate().flat_map(|(k, round)| round.iter().enumerate().filter(|(_, a)| a.contains("PANIC[")).map(move |(i, _)| (k, i))).collect();
+        if let Some((k, i)) = panicked.first() {
+            // a single thread already fails on this world: report the query and leave the concurrent part aside
+            let q = match &w.queries[*i] {
+                Q::Net { url, src, ty } => json!({"url_prefix": url.chars().take(120).collect::<String>(), "url_bytes": url.len(), "first_non_ascii_byte": url.bytes().position(|b| b >= 0x80), "source": src, "type": ty}),
+                other => json!(format!("{:?}", other).chars().take(300).collect::<String>()),
+            };
+            out.fail("query-panicked", None, json!({"seed": wseed, "round": k, "query": q, "answer": reference[*k][*i].chars().take(300).collect::<String>(), "queries_panicking": panicked.len(),
+                "rules_with_regexes": w.rules.iter().filter(|l| l.contains('*') || l.starts_with('/')).take(12).collect::<Vec<_>>()}));
+            continue;
+        }
         // model correspondence for the network queries of the first round state
         {
             let mut e = build(&w);
